@@ -345,6 +345,13 @@ def check_spectrum_interp(run, drv, ncases, start=0):
 
 # ------------------------------------------------------------------------------------------------
 def circle_grid(rng):
+    if rng.random() < 0.2:
+        # regularly spaced sector grid that does not tile the circle: the bin across the wrap is wider than the step
+        step = rng.choice([5.0, 10.0, 15.0])
+        wrap_bin = rng.choice([2, 3, 6, 9]) * step
+        n = int(round((360.0 - wrap_bin) / step)) + 1
+        start = rng.choice([0.0, -180.0, 10.5, 200.0])
+        return start + step * np.arange(n)
     n = rng.choice([4, 5, 8, 12, 24, 36, 72])
     while True:
         w = np.array([rng.choice([1, 1, 2, 3]) for _ in range(n)], dtype=float)
@@ -421,6 +428,21 @@ def check_c14(run, drv, ncases, start=0):
             run.violation("targets differing by a whole number of periods give different results", dict(coord=cname, x=xs.tolist()))
         if not np.isnan(data).any() and np.isnan(res).any():
             run.violation("a target on a periodic coordinate is out of range (missing result)", dict(coord=cname, x=xs.tolist()))
+        if not np.isnan(data).any():
+            # independent reference: linear between the two cyclic neighbours (the wrap bin included)
+            order = np.argsort(xp % 360.0)
+            sx = (xp % 360.0)[order]
+            for k, x in enumerate(xs):
+                xm = x % 360.0
+                j = int(np.searchsorted(sx, xm, side="right")) - 1          # -1: before the first node = in the wrap bin
+                j0, j1 = order[j % n], order[(j + 1) % n]
+                span = (sx[(j + 1) % n] - sx[j % n]) % 360.0
+                span = span if span > 0 else 360.0
+                t = ((xm - sx[j % n]) % 360.0) / span
+                want = (1 - t) * data[:, j0] + t * data[:, j1]
+                if not np.allclose(res[k], want, rtol=1e-9, atol=1e-9 * (1 + float(np.max(np.abs(data))))):
+                    run.violation("a target on a periodic coordinate is not interpolated linearly between its two cyclic neighbours",
+                                  dict(coord=cname, grid=xp.tolist(), x=float(x), got=res[k].tolist(), want=want.tolist()))
         # angular data along a non-periodic coordinate (time): unit-vector average, shorter arc, [0, 360)
         nt = rng.choice([2, 3, 5, 8])
         tt = np.cumsum([rng.choice([1, 2, 3]) for _ in range(nt)]).astype(float)
@@ -483,20 +505,22 @@ def check_c14(run, drv, ncases, start=0):
         t0 = np.datetime64("2022-03-01T00:00:00", "s")
         times = t0 + tsec.astype("int64").astype("timedelta64[s]")
         new_times = t0 + x_new[:-2].astype("int64").astype("timedelta64[s]")
-        df = pd.DataFrame({"time": times, "peak_direction": ang % 360.0, "hs": np.arange(nt) * 1.0})
+        df = pd.DataFrame({"time": times, "peak_direction": ang % 360.0, "hs": np.arange(nt) * 1.0,
+                           "meanDirection": ang % 360.0, "PeakDirection": ang % 360.0})       # the API's camel-case names too
         with warnings.catch_warnings():
             warnings.simplefilter("ignore")
             odf = interpolate_dataframe_time(df, new_times)
         run.case("dataframe", key=(case,))
-        dd = odf["peak_direction"].values.astype(float)
-        for k, x in enumerate(x_new[:-2]):
-            j = min(int(np.searchsorted(tsec, x, side="right")) - 1, nt - 2) if x < tsec[-1] else nt - 2
-            t = (x - tsec[j]) / (tsec[j + 1] - tsec[j])
-            a, b = ang[j] % 360.0, ang[j + 1] % 360.0
-            want = (a + wrap(b - a) * t) % 360.0
-            if not (0 <= dd[k] < 360.0) or abs(wrap(dd[k] - want)) > 1e-6:
-                run.violation("data-frame direction column is not interpolated along the shorter arc into [0, 360)",
-                              dict(a=float(a), b=float(b), t=float(t), got=float(dd[k]), want=float(want)))
+        for col in ("peak_direction", "meanDirection", "PeakDirection"):
+            dd = odf[col].values.astype(float)
+            for k, x in enumerate(x_new[:-2]):
+                j = min(int(np.searchsorted(tsec, x, side="right")) - 1, nt - 2) if x < tsec[-1] else nt - 2
+                t = (x - tsec[j]) / (tsec[j + 1] - tsec[j])
+                a, b = ang[j] % 360.0, ang[j + 1] % 360.0
+                want = (a + wrap(b - a) * t) % 360.0
+                if not (0 <= dd[k] < 360.0) or abs(wrap(dd[k] - want)) > 1e-6:
+                    run.violation("data-frame direction column is not interpolated along the shorter arc into [0, 360)",
+                                  dict(column=col, a=float(a), b=float(b), t=float(t), got=float(dd[k]), want=float(want)))
         # drifter track across the antimeridian
         lon = wrap(175.0 + np.cumsum([rng.choice([2.0, 3.5, -1.0, 4.0]) for _ in range(nt)]))
         lat = np.linspace(10, 12, nt)
@@ -530,7 +554,10 @@ def check_c14(run, drv, ncases, start=0):
             try:
                 with warnings.catch_warnings():
                     warnings.simplefilter("ignore")
-                    op = interpolate_at_points(gds, {"time": ptime, "latitude": plat, "longitude": plon},
+                    pts = {"time": ptime, "latitude": plat, "longitude": plon}
+                    order = rng.choice([("time", "latitude", "longitude"), ("time", "longitude", "latitude"), ("longitude", "latitude", "time")])
+                    run.count("points_order_" + "_".join(o[:3] for o in order))
+                    op = interpolate_at_points(gds, {k_: pts[k_] for k_ in order},
                                                independent_variable="time", periodic_coordinates={"longitude": 360})
                 got = np.asarray(op["hs"].values, dtype=float)
                 # reference: trilinear with periodic longitude
